@@ -17,6 +17,7 @@ RULE = ('placement enumeration: 11 statement constructs + 5 expression construct
         'well-typed so the placement is the only possible reason for rejection; every case is a distinct placement (non-trivial)')
 ASSUMPTIONS = ['legality is the literal reading of the five clauses of the property statement; a ?? nested inside a ?? operand is not generated '
                '(the statement does not decide it)']
+REQUIRED_HIDC_FUNCTIONS = ['parser/grammar:ps_block', 'parser/grammar:ps_func_call', 'parser/grammar:ps_expr']     # M-COV: deciding code never entered => inconclusive
 MIN_NONTRIVIAL = {'quick': 100000, 'thorough': 1000000}
 
 
